@@ -45,6 +45,24 @@ def collect(crates):
             if b.get("parent"):
                 continue
             out.setdefault(b["path"], fingerprint(b))
+    # who calls the function, with which constant arguments (a renamed function keeps its call sites)
+    callers = {}
+    for cname, raw in crates.items():
+        if cname not in CRATES:
+            continue
+        for b in raw["bodies"]:
+            for bb in b.get("blocks", []):
+                t = bb.get("term", {})
+                if t.get("k") != "call":
+                    continue
+                f = t.get("f", {})
+                fn = f.get("fn")
+                if not fn or not f.get("local"):
+                    continue
+                consts = [a["const"].get("val", "") for a in t.get("args", []) if isinstance(a, dict) and "const" in a]
+                callers.setdefault(fn, []).append("%s|%s" % (b["path"].split("::{closure")[0], ",".join(map(str, consts))))
+    for p, fp in out.items():
+        fp["callers"] = sorted(callers.get(p, []))
     return out
 
 
@@ -57,7 +75,12 @@ def similarity(a, b):
     j = inter / union if union else 1.0
     nb = min(a["nblocks"], b["nblocks"]) / max(1, max(a["nblocks"], b["nblocks"]))
     nl = 1.0 if a["nlocal"] == b["nlocal"] else 0.8 if abs(a["nlocal"] - b["nlocal"]) <= 1 else 0.5
-    return 0.6 * j + 0.25 * nb + 0.15 * nl
+    body = 0.6 * j + 0.25 * nb + 0.15 * nl
+    ca, cb = a.get("callers"), b.get("callers")
+    if ca and cb is not None:
+        same_callers = 1.0 if ca == cb else 0.0
+        return 0.45 * same_callers + 0.55 * body
+    return body
 
 
 def find_renames(crates):
@@ -72,13 +95,18 @@ def find_renames(crates):
         return {}, []
     scored = []
     for m in missing:
-        cands = [(similarity(ref[m], cur[e]), e) for e in extra if container(e) == container(m)]
+        def name_bonus(x, y):
+            tx = set(x.rsplit("::", 1)[-1].lower().split("_"))
+            ty = set(y.rsplit("::", 1)[-1].lower().split("_"))
+            return 0.1 * len(tx & ty) / max(1, len(tx | ty))
+        cands = [(similarity(ref[m], cur[e]) + name_bonus(m, e), e) for e in extra if container(e) == container(m)
+                 and similarity(ref[m], cur[e]) > 0]
         cands = sorted((c for c in cands if c[0] > 0), reverse=True)
         if not cands:
             continue
         best = cands[0]
         second = cands[1][0] if len(cands) > 1 else 0.0
-        if best[0] >= 0.7 and best[0] - second >= 0.1:
+        if best[0] >= 0.62 and best[0] - second >= 0.04:
             scored.append((best[0], m, best[1]))
     alias = {}
     used = set()
